@@ -31,6 +31,7 @@ import (
 //   b  does not compile
 //   k  compiles, but declares the witness's metric with another kind: refused
 //      at registration
+//   s  a symbolic link to nothing: cannot be read
 
 type c25Step struct {
 	Op   string `json:"op"`             // append prog scan
@@ -142,7 +143,7 @@ func runC25x(c c25Case) *vstat.Failure {
 		onDisk  string // "", v1, v2, broken (for b/k: "v1" = present)
 		running string // version running, "" = none
 	}
-	ps := map[string]*pstate{"e": {}, "b": {}, "k": {}}
+	ps := map[string]*pstate{"e": {}, "b": {}, "k": {}, "s": {}}
 	loads, unloads, loadErrs := map[string]int64{}, map[string]int64{}, map[string]int64{}
 	var rtErrs int64
 	eKind := "" // kind under which program e's metric is registered ("" = never loaded)
@@ -160,7 +161,7 @@ func runC25x(c c25Case) *vstat.Failure {
 			must(os.Remove(path))
 			p.onDisk = ""
 		case "same":
-			if p.onDisk == "" {
+			if p.onDisk == "" || st.Prog == "s" {
 				return
 			}
 			b, err := os.ReadFile(path)
@@ -173,13 +174,21 @@ func runC25x(c c25Case) *vstat.Failure {
 					ed = "v2"
 				}
 			}
+			if st.Prog == "s" {
+				// a program file that cannot be read: a symbolic link to nothing
+				if p.onDisk == "" {
+					must(os.Symlink(filepath.Join(progDir, "no_such_target_"+tag), path))
+				}
+				p.onDisk = "v1"
+				return
+			}
 			must(os.WriteFile(path, []byte(c25ProgSource(st.Prog, ed, tag)), 0o644))
 			p.onDisk = ed
 		}
 	}
 	// model of one scan (LoadAllPrograms)
 	scan := func() {
-		for _, prog := range []string{"b", "e", "k"} {
+		for _, prog := range []string{"b", "e", "k", "s"} {
 			p := ps[prog]
 			n := pname(prog)
 			if p.onDisk == "" {
@@ -194,7 +203,7 @@ func runC25x(c c25Case) *vstat.Failure {
 				kindOf = "gauge"
 			}
 			switch {
-			case prog == "b" || prog == "k" || p.onDisk == "broken":
+			case prog == "b" || prog == "k" || prog == "s" || p.onDisk == "broken":
 				// b: compile error; k: refused at registration; every scan tries again
 				loadErrs[n]++
 			case p.running == p.onDisk:
@@ -301,7 +310,7 @@ func runC25x(c c25Case) *vstat.Failure {
 		if got := expMap("prog_runtime_errors_total", wname); got != 0 {
 			return vstat.Failf("prog-runtime-errors-total", "step %d: prog_runtime_errors_total[witness] = %d, it raises none", step, got)
 		}
-		for _, prog := range []string{"w", "e", "b", "k"} {
+		for _, prog := range []string{"w", "e", "b", "k", "s"} {
 			n := pname(prog)
 			if prog == "w" {
 				n = wname
@@ -459,7 +468,7 @@ func TestC25(t *testing.T) {
 				st.Class("lines-appended-right-before-the-stop")
 			}
 			progStep := func(label string) c25Step {
-				p := rapid.SampledFrom([]string{"e", "e", "e", "b", "k"}).Draw(rt, label+"prog")
+				p := rapid.SampledFrom([]string{"e", "e", "e", "b", "k", "s"}).Draw(rt, label+"prog")
 				ed := rapid.SampledFrom([]string{"v1", "v2", "same", "broken", "remove", "kind"}).Draw(rt, label+"edit")
 				return c25Step{Op: "prog", Prog: p, Edit: ed}
 			}
